@@ -63,6 +63,7 @@ var GapAlphabet = []struct{ Code, Text string }{
 	{"ic", "/*c*/"},
 	{"hc", "#c\n"},
 	{"sc", " //c\n"},
+	{"sic", " /*c*/ "}, // inline comment with spaces around it (also legal directly after "/" and "*")
 }
 
 // gapToks[i] is the token sequence that GapAlphabet[i].Text contributes when it
@@ -181,7 +182,7 @@ type Plan struct {
 }
 
 // reducedAlphabet lists the GapAlphabet indices used when Plan.BReduced is set.
-var reducedAlphabet = []int{0, 1, 4, 5, 6}
+var reducedAlphabet = []int{0, 1, 4, 5, 6, 8}
 
 var fullAlphabet = func() []int {
 	out := make([]int, len(GapAlphabet))
